@@ -9,10 +9,12 @@ import (
 	"encoding/json"
 	"fmt"
 	"os"
+	"os/exec"
 	"path/filepath"
 	"regexp"
 	"sort"
 	"strconv"
+	"strings"
 	"sync"
 	"time"
 )
@@ -253,4 +255,122 @@ func Minimize(hist []int, fails func([]int) bool) []int {
 		}
 	}
 	return cur
+}
+
+// ---- process sharding (for checks whose fault shims are process-global) ----------------------
+
+type ShardResult struct {
+	Counters   map[string]int64 `json:"counters"`
+	Violations []Violation      `json:"violations"`
+	Counts     map[string]int   `json:"counts"`
+	Samples    []any            `json:"samples"`
+	Complete   bool             `json:"complete"`
+}
+
+// Shard returns (index, total, true) when this process is a shard worker.
+func Shard() (int, int, bool) {
+	s := os.Getenv("VERIF_SHARD")
+	if s == "" {
+		return 0, 1, false
+	}
+	var i, n int
+	fmt.Sscanf(s, "%d/%d", &i, &n)
+	return i, n, true
+}
+
+// FinishShard writes this worker's partial result and exits 0.
+func (r *Run) FinishShard(counters map[string]int64, samples []any, complete bool) {
+	res := ShardResult{Counters: counters, Samples: samples, Complete: complete, Counts: r.violCount}
+	for _, v := range r.viol {
+		res.Violations = append(res.Violations, *v)
+	}
+	b, _ := json.Marshal(res)
+	if err := os.WriteFile(os.Getenv("VERIF_SHARD_OUT"), b, 0o644); err != nil {
+		Unbound("shard output: " + err.Error())
+	}
+	os.Exit(0)
+}
+
+// SpawnShards re-executes this binary n times (VERIF_SHARD=i/n) and merges the partial results
+// into r (violations) and the returned counters/samples.
+func (r *Run) SpawnShards(n int) (map[string]int64, []any, bool) {
+	exe, err := os.Executable()
+	if err != nil {
+		Unbound(err.Error())
+	}
+	dir, _ := os.MkdirTemp("/dev/shm", "verif.shards.")
+	defer os.RemoveAll(dir)
+	type out struct {
+		res ShardResult
+		err error
+		log string
+	}
+	outs := make([]out, n)
+	var wg sync.WaitGroup
+	for i := 0; i < n; i++ {
+		wg.Add(1)
+		go func(i int) {
+			defer wg.Done()
+			f := filepath.Join(dir, fmt.Sprintf("%d.json", i))
+			cmd := exec.Command(exe, os.Args[1:]...)
+			cmd.Env = append(os.Environ(), fmt.Sprintf("VERIF_SHARD=%d/%d", i, n), "VERIF_SHARD_OUT="+f,
+				fmt.Sprintf("VERIF_DEADLINE_S=%d", int(time.Until(r.Deadline).Seconds())), "VERIF_TIER="+r.Tier)
+			b, err := cmd.CombinedOutput()
+			outs[i].log = string(b)
+			if err != nil {
+				outs[i].err = err
+				return
+			}
+			jb, err := os.ReadFile(f)
+			if err != nil {
+				outs[i].err = err
+				return
+			}
+			outs[i].err = json.Unmarshal(jb, &outs[i].res)
+		}(i)
+	}
+	wg.Wait()
+	counters := map[string]int64{}
+	var samples []any
+	complete := true
+	for i, o := range outs {
+		if o.err != nil {
+			t := o.log
+			if len(t) > 800 {
+				t = t[len(t)-800:]
+			}
+			if strings.Contains(o.log, "HARNESS-") {
+				fmt.Print(t)
+				os.Exit(2)
+			}
+			Unbound(fmt.Sprintf("shard %d failed: %v: %s", i, o.err, t))
+		}
+		for k, v := range o.res.Counters {
+			counters[k] += v
+		}
+		if len(samples) < 6 {
+			samples = append(samples, o.res.Samples...)
+		}
+		complete = complete && o.res.Complete
+		for _, v := range o.res.Violations {
+			r.Violate(v.Signature, v.Desc, v.Replay)
+			r.violCount[v.Signature] += o.res.Counts[v.Signature] - 1
+		}
+	}
+	return counters, samples, complete
+}
+
+// TakeViolations removes and returns everything recorded so far (for checks that re-group raw
+// per-case violations into root-cause classes before reporting).
+func (r *Run) TakeViolations() ([]Violation, map[string]int) {
+	r.mu.Lock()
+	defer r.mu.Unlock()
+	var out []Violation
+	for _, v := range r.viol {
+		out = append(out, *v)
+	}
+	c := r.violCount
+	r.viol, r.violCount = map[string]*Violation{}, map[string]int{}
+	sort.Slice(out, func(i, j int) bool { return out[i].Signature < out[j].Signature })
+	return out, c
 }
